@@ -254,19 +254,28 @@ type leafVal struct {
 }
 
 func valueLeaves(v ssa.Value, chain []*ssa.Call, depth int) []leafVal {
+	return valueLeavesOpt(v, chain, depth, false)
+}
+
+// cellLeaves: like valueLeaves, but a load of a (captured) local variable is a leaf - for rules that identify a variable.
+func cellLeaves(v ssa.Value, chain []*ssa.Call, depth int) []leafVal {
+	return valueLeavesOpt(v, chain, depth, true)
+}
+
+func valueLeavesOpt(v ssa.Value, chain []*ssa.Call, depth int, stopAtCells bool) []leafVal {
 	if depth > 8 {
 		return []leafVal{{v, chain}}
 	}
 	switch x := v.(type) {
 	case *ssa.ChangeType:
-		return valueLeaves(x.X, chain, depth+1)
+		return valueLeavesOpt(x.X, chain, depth+1, stopAtCells)
 	case *ssa.Phi:
 		var out []leafVal
 		for _, e := range x.Edges {
 			if e == ssa.Value(x) {
 				continue
 			}
-			out = append(out, valueLeaves(e, chain, depth+1)...)
+			out = append(out, valueLeavesOpt(e, chain, depth+1, stopAtCells)...)
 		}
 		return out
 	case *ssa.Parameter:
@@ -279,7 +288,7 @@ func valueLeaves(v ssa.Value, chain []*ssa.Call, depth int) []leafVal {
 				if p == x {
 					args := chain[i].Call.Args
 					if k < len(args) {
-						return valueLeaves(args[k], chain[:i], depth+1)
+						return valueLeavesOpt(args[k], chain[:i], depth+1, stopAtCells)
 					}
 					// f(g()): the arguments are the results of the single tuple-valued argument
 					if len(args) == 1 {
@@ -307,12 +316,12 @@ func valueLeaves(v ssa.Value, chain []*ssa.Call, depth int) []leafVal {
 		}
 	case *ssa.UnOp:
 		if x.Op == token.MUL {
-			if cell := cellOf(x.X); cell != nil {
+			if cell := cellOf(x.X); cell != nil && !stopAtCells {
 				sts := storesTo(cell)
 				if len(sts) > 0 && len(sts) <= 4 {
 					var out []leafVal
 					for _, st := range sts {
-						out = append(out, valueLeaves(st.Val, chain, depth+1)...)
+						out = append(out, valueLeavesOpt(st.Val, chain, depth+1, stopAtCells)...)
 					}
 					return out
 				}
